@@ -1,7 +1,7 @@
 """C11 — variable storage exposed via PEEK / VARPTR / VARPTR$ and never aliased.
 
 Spec VarMem.tla (property on sweeps + implementation-shaped layout model); models VarMem_MC*.cfg; trace spec VarMem_Trace."""
-import os
+import os, json
 from ..session import Sess
 from .. import graph, core
 
@@ -226,7 +226,15 @@ def spec_to_code(ctx):
     if not r['ok']:
         raise core.MachineryError('emit run failed: %s' % r['error'])
     trans = graph.parse_transitions(r['out'])
+    # the depth counter is part of the VIEW: the same (state, action) may be printed at several depths
+    seen, uniq = set(), []
     inits = {t['from'] for t in trans if t['d'] == 0}
+    for t in trans:
+        k = (t['from'], json.dumps(t['a'], sort_keys=True))
+        if k not in seen:
+            seen.add(k)
+            uniq.append(t)
+    trans = uniq
     if len(inits) != 1:
         raise core.MachineryError('emit: %d initial states' % len(inits))
     walks, cov, total = graph.covering_walks(trans, inits.pop(), max_len=8, rng=ctx.rng, limit=ctx.pick(500, None))
